@@ -166,7 +166,7 @@ _tlc_n = [0]
 
 
 def tlc(module, cfg=None, env=None, workers=1, timeout=900, coverage=False, dfs=False, xmx="3g",
-        simulate=None, depth=None, extra=None, check=True):
+        simulate=None, depth=None, extra=None, check=True, light=False):
     """Run TLC on spec/<module>.tla with spec/<cfg or module>.cfg."""
     _tlc_n[0] += 1
     md = os.path.join(rundir(), "tlc-%d-%d" % (os.getpid(), _tlc_n[0]))
@@ -174,7 +174,9 @@ def tlc(module, cfg=None, env=None, workers=1, timeout=900, coverage=False, dfs=
     cfgfile = os.path.join(SPEC, (cfg or module) + ".cfg")
     if not os.path.exists(cfgfile):
         raise ToolError("missing TLC config %s" % cfgfile)
-    jopts = ["-XX:+UseParallelGC", "-Xmx" + xmx, "-Xss1g"]
+    # light: many short single-threaded JVMs side by side (sharded generators, trace validators):
+    # serial GC and C1-only compilation, otherwise the JVMs' own compiler/GC threads starve each other
+    jopts = (["-XX:+UseSerialGC", "-XX:TieredStopAtLevel=1", "-XX:CICompilerCount=1"] if light else ["-XX:+UseParallelGC"]) + ["-Xmx" + xmx, "-Xss1g"]
     if dfs:
         jopts.append("-Dtlc2.tool.queue.IStateQueue=StateDeque")
     cmd = ["java"] + jopts + ["-cp", TLA_CP, "tlc2.TLC", "-workers", str(workers), "-metadir", md,
@@ -206,6 +208,16 @@ def tlc_parallel(jobs, maxpar=None):
     with ThreadPoolExecutor(max_workers=maxpar) as ex:
         futs = [ex.submit(lambda kw=kw: tlc(**kw)) for kw in jobs]
         return [f.result() for f in futs]
+
+
+def spec_hash():
+    """Hash of every specification file: generated cases are a function of the specification only."""
+    h = hashlib.sha256()
+    for f in sorted(glob.glob(os.path.join(SPEC, "*.tla")) + glob.glob(os.path.join(SPEC, "*.cfg"))):
+        h.update(f.encode())
+        with open(f, "rb") as fh:
+            h.update(fh.read())
+    return h.hexdigest()
 
 
 def read_ndjson(path):
